@@ -84,6 +84,13 @@ def h_wire(cfg):
         rec = Rec(env)
         wire.out = rec
         entries = []
+        twin = None
+        if cfg.get('twin'):
+            # a second, independent wire in the same environment carrying other packets (its own draws)
+            twin = Wire(env, st.delay_dist, loss_rate=p)
+            twin_rec = Rec(env)
+            twin.out = twin_rec
+            twin_entries = []
 
         def source():
             for k in range(n):
@@ -92,6 +99,10 @@ def h_wire(cfg):
                 pkt = mk_packet(Packet, env.now, sym_int('s%d' % k, 1), k)
                 entries.append((pkt, env.now))
                 wire.put(pkt)
+                if twin is not None and k % 2 == 0:
+                    q = mk_packet(Packet, env.now, 1, 1000 + k)
+                    twin_entries.append((q, env.now))
+                    twin.put(q)
 
         env.process(source())
         try:
@@ -106,6 +117,12 @@ def h_wire(cfg):
         # the code took the "no loss rate" branch: only legal when p == 0
         check('c10.loss-rate-ignored-only-if-zero', eq(p, 0))
     wire_law('c10', wire.action, entries, rec.log, st, p, has_loss)
+    if twin is not None:
+        tl = loss == 'sym' and any(pr is twin.action for _, pr in st.losses)
+        if loss == 'sym' and not tl:
+            check('c10.loss-rate-ignored-only-if-zero', eq(p, 0), 'twin')
+        wire_law('c10.twin', twin.action, twin_entries, twin_rec.log, st, p, tl)
+        cover('two-instances')
     if len(rec.log) >= 2 or len(rec.log) < n:
         cover('nontrivial')
 
@@ -169,6 +186,8 @@ def jobs(tier, seed):
             js.append({'harness': 'wire', 'cfg': {'n': n, 'sorts': sort, 'loss': loss},
                        'weight': 10 if loss == 'sym' else 3})
     js.append({'harness': 'wire', 'cfg': {'n': n + 1, 'sorts': 'int', 'loss': 'none'}, 'weight': 20})
+    for loss in ('none', 'sym'):
+        js.append({'harness': 'wire', 'cfg': {'n': 3 if loss == 'none' else 2, 'sorts': 'int', 'loss': loss, 'twin': True}, 'weight': 30})
     # longer workloads: bursts entering the wire at one instant (reordering / loss-draw binding over several packets)
     m = 6 if tier == 'quick' else 7
     js.append({'harness': 'wire', 'weight': 30, 'opts': {'max_paths': 20000},
@@ -190,7 +209,7 @@ META = {
             'non-trivial = at least two deliveries or at least one loss',
     'required_labels': ['c10.delivery-time', 'c10.loss-rule', 'c10.order-preserved', 'c10.ab.delivery-time',
                         'c10.ba.delivery-time', 'c10.cable-A-to-B-only'],
-    'required_covers': ['nontrivial', 'lost'],
+    'required_covers': ['nontrivial', 'lost', 'two-instances'],
     'bounds': {'quick': 'n=3 packets (4 without loss); cable 2+2 packets; gaps, delays >= 0 unbounded Int/Real; loss rate symbolic in [0,1]',
                'thorough': 'n=4-5 (5-6 without loss); cable 2+2 and 3+3, up to a path budget'},
     'assumptions': ['draws are bound to packets positionally per wire process: i-th loss draw = i-th packet entering, '
